@@ -8,7 +8,9 @@ Import ListNotations.
 
 Record got := { g_from : nat; g_seq : nat; g_sender_ok : bool }.
 Record case := { c_senders : nat; c_per_sender : nat;   (* chain mode: 1 sender, per_sender = total *)
-                 c_got : list got; c_hang : bool }.
+                 c_got : list got; c_hang : bool;
+                 c_overlap : bool;        (* two Receive calls in progress at once *)
+                 c_restarts : nat }.      (* scripted panics (each delivered once, to the incarnation it kills) *)
 
 (* the subsequence of sequence numbers received from sender s *)
 Definition seqs_of (s : nat) (l : list got) : list nat :=
@@ -18,7 +20,7 @@ Fixpoint list_eqb (a b : list nat) : bool :=
   match a, b with [], [] => true | x :: a', y :: b' => Nat.eqb x y && list_eqb a' b' | _, _ => false end.
 
 Definition oracle (c : case) : bool :=
-  negb (c_hang c) &&
+  negb (c_hang c) && negb (c_overlap c) &&
   Nat.eqb (length (c_got c)) (c_senders c * c_per_sender c) &&
   forallb g_sender_ok (c_got c) &&
   forallb (fun s => list_eqb (seqs_of s (c_got c)) (seq 1 (c_per_sender c))) (seq 0 (c_senders c)).
@@ -26,12 +28,13 @@ Definition oracle (c : case) : bool :=
 (* there is no schedule control here, so nothing to replay in the model *)
 Definition corr (c : case) : bool := true.
 
-(* 1 several senders, 2 more than one batch bound (4096) of messages, 3 more
+(* 4 = restarts with senders active during the restart delay; 1 several senders, 2 more than one batch bound (4096) of messages, 3 more
    than 300 consecutive batches in one worker run (the throughput branch) *)
 Definition branches (c : case) : list nat :=
   (if Nat.ltb 1 (c_senders c) then [1] else []) ++
   (if Nat.ltb 4096 (c_senders c * c_per_sender c) then [2] else []) ++
-  (if Nat.eqb (c_senders c) 1 && Nat.ltb 300 (c_per_sender c) then [3] else []).
+  (if Nat.eqb (c_senders c) 1 && Nat.ltb 300 (c_per_sender c) then [3] else []) ++
+  (if Nat.ltb 0 (c_restarts c) then [4] else []).
 
 Fixpoint failing {A} (f : A -> bool) (i : nat) (l : list A) : list nat :=
   match l with [] => [] | a :: l' => (if f a then [] else [i]) ++ failing f (S i) l' end.
